@@ -4183,6 +4183,9 @@ Case_BaseLdurStur:
         uint32_t dst_index = o0.as<Vec>().element_index();
         uint32_t lsb_index = element_type - 1u;
 
+        if (lsb_index > 3u)
+          goto InvalidInstruction;
+
         uint32_t imm5 = ((dst_index << 1) | 1u) << lsb_index;
         if (imm5 > 31)
           goto InvalidElementIndex;
